@@ -86,6 +86,9 @@ func init() {
 	register("sets", func(n int) {
 		for i := 0; i < n; i++ {
 			l1, l2 := randInts(8, 10), randInts(8, 10)
+			if rng.Intn(4) == 0 { // longer lists: 9 … 40 elements (an unrolled or blocked scan has to get every position right)
+				l1, l2 = randInts(40, 60), randInts(40, 60)
+			}
 			switch rng.Intn(7) {
 			case 0:
 				do("uni", i64s(l1), i64s(l2))
@@ -96,7 +99,13 @@ func init() {
 			case 3:
 				do("uniq", i64s(l1))
 			case 4:
-				do("incl", i64s(l1), s(int64(rng.Intn(10)-5)))
+				t := int64(rng.Intn(10) - 5)
+				if len(l1) > 0 && rng.Intn(2) == 0 { // an element that occurs exactly once, at a random position
+					k := rng.Intn(len(l1))
+					t = 1000 + int64(rng.Intn(9))
+					l1[k] = t
+				}
+				do("incl", i64s(l1), s(t))
 			case 5:
 				big := randInts(6, 1<<40)
 				do("max", i64s(big))
